@@ -28,6 +28,70 @@ Table "Python construct -> model term" (locals are recognised by ROLE, not by sp
   if / else / try / except                                walked, contents are "guarded"
   return ok                                               must be the last statement, unconditional, ok = the success flag
   anything else (del, augmented assignment to self.*, assignment to R / S / ok, other calls)   REJECTED
+
+Second part (`gen_user_rows`, module `lean/RtcVerif/Gen/UserRows.lean`): the objective assembly, the
+point-constraint block and the path-constraint block of `transcribe()` in
+`collocated_integrated_optimization_problem.py`, located by ROLE (the names are read from the
+`return discrete, lbx, ubx, lbg, ubg, x0, nlp` statement, the `nlp = {...}` dictionary and the calls
+`self.objective(..)`, `self.constraints(..)`, `self.path_constraints(..)`, `self.path_objective(0)`),
+executed symbolically — the bound code once per kind of bound (scalar / ndarray / Timeseries with 1-D /
+2-D values) of either side — and emitted over the NumPy / CasADi-level primitives of `Model/C06.lean`:
+
+  discPathObjectiveGen / discPathConstraintsGen   the two row slices of the mapped output
+  fMemberGen, objectiveGen                        `f_member`, `nlp["f"]`          = fMember, objectiveCode   (-> C06_objective)
+  pointBoundsGen, pointRowsGen                    broadcasting loop + extends     = pointBound x 2, pointRows (-> C06_point_constraints_once)
+  pathLbBlockGen, pathUbBlockGen, pathRowsGen     bound arrays, ravel, g rows     = pathBlock, pathRows       (-> C06_path_constraints_everywhere)
+  memberRowsGen                                   order of the two blocks         = memberRows
+
+Table "Python construct -> model term" of this part (M = the member loop variable; anything else REJECTED):
+
+  names / skeleton
+    PO = self.path_objective(0) ; PC = self.path_constraints(0)          path objective expression ; `paths 0`
+    PCE = ca.vertcat(*[e for (e, _, _) in PC])                           expression vector of R rows
+    PO, PCE = ca.substitute([PO, PCE], ..)                               same roles (inlined parameters: C06_transcribe_history_free)
+    POF = ca.Function(_, _, [PO], _) ; PCF = ca.Function(_, _, [PCE], _) ; X = X.expand()     the functions of PO / PCE
+    CT = self.times() ; N = len(CT)                                      times ; n  (the theorems take n = times.length)
+    ND = <..>.mx_out(0).size1()                                          nd
+    PO.size1() ; PCE.size1()                                             nj ; R
+    F = [] ; G = [] ; LBG = [] ; UBG = []  (each assigned once)          the four accumulators
+    nlp = {"x": _, "f": ca.sum1(ca.vertcat(*F)), "g": ca.vertcat(*G)}    sumList of the entries of F ; G in append order
+    for M in range(self.ensemble_size): .. F.append(e)                   (List.range E).map (fun m => e)
+  mapped output
+    D = ca.vec(ACC[a : b, 0 : N - 1]) (else-branch: D = ca.MX())          vecRange a b 0 (n - 1) cols   (no accumulation: cols = [])
+    a, b: sums of ND, PO.size1(), PCE.size1(), integer literals
+  objective
+    V = self.objective(M)                                                objective m (a column vector)
+    if V.size1() == 0: V = 0                                             objVal (objective m)
+    if PO.size1() > 0 | != 0 | >= 1: ..                                  if 0 < nj | nj ≠ 0 | 1 ≤ nj then .. else ..
+    I = POF.call(self.__func_initial_inputs[M], False, True) ; I[0]      (pobj0 m).getD 0 0
+    ca.sum1(D)                                                           sumList D
+    a + b ; a * b ; V += e ; number literal ; self.ensemble_member_probability(M)      + ; * ; V := V + e ; literal ; prob m
+  point constraints
+    C = self.constraints(M)                                              points m
+    if C is None: raise ; logger blocks                                  nothing
+    if C: / if len(C) > 0:                                               the block below on a non-empty list (nothing is added for [])
+    GC, LC, UC = [list](zip(*C)) ; LC = list(LC)                         the three columns of the triples
+    for i, (g, l, u) in enumerate(zip(GC, LC, UC)):                      per constraint, executed per kind of l and u
+    s = g.size1() ; g.shape[0]                                           s
+    isinstance(b, np.ndarray)                                            decided by the kind; `not`, `or`, `and` short-circuit
+    b.shape[0] == 1 ; b.shape[0] != g.shape[0] ; s > 1                   bv.length = 1 ; bv.length ≠ s ; 1 < s
+    LC[i] = np.full(s, b)                                                npFull s b.arr
+    raise ..                                                             none
+    an entry left as it is                                               npEntries b.arr
+    G.extend(GC) ; LBG.extend(LC) ; UBG.extend(UC)                        the Rows fields
+  path constraints
+    if M > 0: PC = self.path_constraints(M)                              paths (if 0 < m then m else 0)
+    if len(PC) > 0: / if PC:                                             if (paths ..).isEmpty then no rows else ..
+    [I] = PCF.call(self.__func_initial_inputs[M], False, True) ; G.append(I) ; G.append(D)      pcon0 m ++ D
+    A = np.empty((PCE.size1(), N))                                       an R x n array filled block by block
+    j = 0 ; for c in PC: .. A[j : j + s, :] = b ; j += s                 blocks one below the other: mapMOpt .. paths
+    s = c[0].size1() ; c[1] ; c[2]                                       c.size ; c.lb ; c.ub
+    isinstance(b, ca.MX) and not b.is_constant()                         False for the four kinds (symbolic bounds: known finding F6)
+    isinstance(b, Timeseries) ; isinstance(b, np.ndarray)                decided by the kind
+    self.interpolate(CT, b.times, b.values, f, f).transpose()            npInterpT times f b     (f: -np.inf -> ninf, np.inf -> pinf)
+    np.broadcast_to(b, (N, s)) ; x.transpose()                           npBroadcastTo n s b.arr ; npTranspose x
+    A[j : j + s, :] = x                                                  npAssignRows s n x
+    LBG.extend(A.transpose().ravel())                                    stackRavel n (blocks of A)
 """
 import ast
 import os
@@ -225,3 +289,1070 @@ def gen_readback(c):
             f.write(text)
         os.replace(tmp, path)
     return [("RtcVerif.Gen.Readback", "RtcVerif.Gen", THEOREMS)]
+
+
+# =================================================================================================
+# second part: objective assembly, point-constraint block, path-constraint block of transcribe()
+
+OPT = os.path.join("src", "rtctools", "optimization", "collocated_integrated_optimization_problem.py")
+KINDS = ("scalar", "vec", "ts1", "ts2")
+PAT = {"scalar": ".scalar %sv", "vec": ".vec %sv", "ts1": ".ts1 %st %sv", "ts2": ".ts2 %st %sv"}
+USER_WHAT = "translator: transcribe (objective / point-constraint / path-constraint blocks)"
+
+
+def _call(node, func=None, nargs=None):
+    """node is a call `func(...)` (func given as dotted text)"""
+    if not isinstance(node, ast.Call):
+        return False
+    if func is not None and _u(node.func, 200) != func:
+        return False
+    return nargs is None or len(node.args) == nargs
+
+
+def _stores(node, names):
+    return any(isinstance(n, ast.Name) and isinstance(n.ctx, ast.Store) and n.id in names for n in ast.walk(node))
+
+
+def _is_logger(st):
+    """`logger.x(..)` or an `if logger.getEffectiveLevel() == logging.DEBUG:` block of logger calls / loops over them"""
+    if isinstance(st, ast.Expr) and isinstance(st.value, ast.Call) and isinstance(st.value.func, ast.Attribute) \
+            and _is_name(st.value.func.value, "logger"):
+        return True
+    if isinstance(st, ast.Expr) and isinstance(st.value, ast.Constant):
+        return True
+    if isinstance(st, ast.If) and _u(st.test, 200).startswith("logger.getEffectiveLevel()") and not st.orelse:
+        return all(_is_logger(x) or (isinstance(x, ast.For) and all(_is_logger(y) for y in x.body)) for x in st.body)
+    return False
+
+
+class _Roles:
+    """names of transcribe() by role"""
+
+    def __init__(self, fn):
+        self.fn = fn
+        top = fn.body
+        ret = top[-1]
+        if not (isinstance(ret, ast.Return) and isinstance(ret.value, ast.Tuple) and len(ret.value.elts) == 7
+                and all(_is_name(e) for e in ret.value.elts)):
+            raise TranslationError("transcribe() does not end with `return discrete, lbx, ubx, lbg, ubg, x0, nlp`")
+        self.LBG, self.UBG, nlp = ret.value.elts[3].id, ret.value.elts[4].id, ret.value.elts[6].id
+        self.F = self.G = None
+        for st in top:
+            if isinstance(st, ast.Assign) and len(st.targets) == 1 and _is_name(st.targets[0], nlp):
+                d = st.value
+                if not (isinstance(d, ast.Dict) and all(isinstance(k, ast.Constant) for k in d.keys)
+                        and sorted(k.value for k in d.keys) == ["f", "g", "x"]):
+                    raise TranslationError("nlp is not a dictionary with the keys x, f, g: `%s`" % _u(d))
+                kv = {k.value: v for k, v in zip(d.keys, d.values)}
+                fv, gv = kv["f"], kv["g"]
+                if not (_call(fv, "ca.sum1", 1) and _call(fv.args[0], "ca.vertcat", 1) and isinstance(fv.args[0].args[0], ast.Starred)
+                        and _is_name(fv.args[0].args[0].value)):
+                    raise TranslationError("nlp['f'] is not `ca.sum1(ca.vertcat(*f))`: `%s`" % _u(fv))
+                if not (_call(gv, "ca.vertcat", 1) and isinstance(gv.args[0], ast.Starred) and _is_name(gv.args[0].value)):
+                    raise TranslationError("nlp['g'] is not `ca.vertcat(*g)`: `%s`" % _u(gv))
+                self.F, self.G = fv.args[0].args[0].value.id, gv.args[0].value.id
+        if self.F is None:
+            raise TranslationError("assignment of the nlp dictionary not found at the top level of transcribe()")
+        if len({self.F, self.G, self.LBG, self.UBG}) != 4:
+            raise TranslationError("f, g, lbg, ubg are not four different lists")
+        for acc in (self.F, self.G, self.LBG, self.UBG):
+            asg = [n for n in ast.walk(fn) if isinstance(n, (ast.Assign, ast.AugAssign, ast.AnnAssign)) and _stores(n, {acc})]
+            if len(asg) != 1 or not (isinstance(asg[0], ast.Assign) and asg[0] in top and isinstance(asg[0].value, ast.List)
+                                     and not asg[0].value.elts and len(asg[0].targets) == 1):
+                raise TranslationError("`%s` is not initialised exactly once as `[]` at the top level" % acc)
+        self.PO = self._single(top, "self.path_objective", "path objective")
+        self.PC = self._single(top, "self.path_constraints", "path constraints")
+        self.CT = self.N = self.PCE = self.POF = self.PCF = self.ND = None
+        for st in ast.walk(fn):
+            if not (isinstance(st, ast.Assign) and len(st.targets) == 1):
+                continue
+            t, v = st.targets[0], st.value
+            if _is_name(t) and _call(v, "self.times", 0) and not v.keywords and st in top:
+                self.CT = t.id
+            if _is_name(t) and _u(v, 200).endswith(".mx_out(0).size1()"):
+                self.ND = t.id
+        for st in top:
+            if not (isinstance(st, ast.Assign) and len(st.targets) == 1 and _is_name(st.targets[0])):
+                continue
+            t, v = st.targets[0].id, st.value
+            if self.CT and _call(v, "len", 1) and _is_name(v.args[0], self.CT):
+                self.N = t
+            if _call(v, "ca.vertcat", 1) and isinstance(v.args[0], ast.Starred) and isinstance(v.args[0].value, ast.ListComp):
+                lc = v.args[0].value
+                g = lc.generators
+                if len(g) == 1 and _is_name(g[0].iter, self.PC) and not g[0].ifs and isinstance(g[0].target, ast.Tuple) \
+                        and len(g[0].target.elts) == 3 and _is_name(g[0].target.elts[0]) and _is_name(lc.elt, g[0].target.elts[0].id):
+                    self.PCE = t
+            if _call(v, "ca.Function") and len(v.args) >= 3 and isinstance(v.args[2], ast.List) and len(v.args[2].elts) == 1 \
+                    and _is_name(v.args[2].elts[0]):
+                if v.args[2].elts[0].id == self.PO:
+                    self.POF = t
+                if self.PCE and v.args[2].elts[0].id == self.PCE:
+                    self.PCF = t
+        for what, val in (("collocation times `= self.times()`", self.CT), ("`n = len(collocation times)`", self.N),
+                          ("path-constraint expression vector", self.PCE), ("path objective function", self.POF),
+                          ("path constraints function", self.PCF), ("dae residual size `.mx_out(0).size1()`", self.ND)):
+            if val is None:
+                raise TranslationError("not found: " + what)
+        # other assignments to these names: only the sanctioned ones
+        for n in ast.walk(fn):
+            if isinstance(n, (ast.Assign, ast.AugAssign)) and _stores(n, {self.PO, self.PCE, self.POF, self.PCF, self.N, self.CT}):
+                txt = _u(n, 400)
+                ok = isinstance(n, ast.Assign) and len(n.targets) == 1
+                t = n.targets[0] if ok else None
+                if ok and _is_name(t):
+                    v = n.value
+                    ok = (t.id == self.PO and _call(v, "self.path_objective")) or (t.id == self.PCE and _call(v, "ca.vertcat")) \
+                        or (t.id in (self.POF, self.PCF) and (_call(v, "ca.Function") or _u(v) == t.id + ".expand()")) \
+                        or (t.id == self.N and _call(v, "len", 1)) or (t.id == self.CT and _call(v, "self.times", 0))
+                elif ok and isinstance(t, ast.Tuple):
+                    v = n.value
+                    ok = [_u(e) for e in t.elts] == [self.PO, self.PCE] and _call(v, "ca.substitute") and v.args \
+                        and isinstance(v.args[0], ast.List) and [_u(e) for e in v.args[0].elts] == [self.PO, self.PCE]
+                if not ok:
+                    raise TranslationError("unexpected assignment `%s`" % txt)
+
+    def _single(self, top, func, what):
+        hits = [st for st in top if isinstance(st, ast.Assign) and len(st.targets) == 1 and _is_name(st.targets[0])
+                and _call(st.value, func, 1)]
+        if len(hits) != 1 or not (isinstance(hits[0].value.args[0], ast.Constant) and hits[0].value.args[0].value == 0):
+            raise TranslationError("`<name> = %s(0)` not found exactly once at the top level (%s)" % (func, what))
+        return hits[0].targets[0].id
+
+    # -- sizes ----------------------------------------------------------------------------------
+    def nat(self, node, extra=None):
+        """row / column index expressions -> Lean Nat term"""
+        if isinstance(node, ast.Constant) and isinstance(node.value, int) and not isinstance(node.value, bool) and node.value >= 0:
+            return "%d" % node.value
+        if _is_name(node):
+            if extra and node.id in extra:
+                return extra[node.id]
+            if node.id == self.ND:
+                return "nd"
+            if node.id == self.N:
+                return "n"
+        if _call(node, None, 0) and isinstance(node.func, ast.Attribute) and node.func.attr == "size1" and _is_name(node.func.value):
+            if node.func.value.id == self.PO:
+                return "nj"
+            if node.func.value.id == self.PCE:
+                return "R"
+        if isinstance(node, ast.BinOp) and isinstance(node.op, (ast.Add, ast.Sub)):
+            return "(%s %s %s)" % (self.nat(node.left, extra), "+" if isinstance(node.op, ast.Add) else "-", self.nat(node.right, extra))
+        raise TranslationError("size / index expression not in the table: `%s`" % _u(node))
+
+    def member(self, node, M):
+        if _is_name(node, M):
+            return "m"
+        if isinstance(node, ast.Constant) and isinstance(node.value, int) and not isinstance(node.value, bool) and node.value >= 0:
+            return "%d" % node.value
+        raise TranslationError("ensemble-member index not in the table: `%s`" % _u(node))
+
+    def init_call(self, node, M):
+        """F.call(self.__func_initial_inputs[k], False, True) -> (F, member term)"""
+        if isinstance(node, ast.Call) and isinstance(node.func, ast.Attribute) and node.func.attr == "call" and _is_name(node.func.value) \
+                and len(node.args) == 3 and isinstance(node.args[0], ast.Subscript) \
+                and _u(node.args[0].value).endswith("func_initial_inputs") \
+                and [_u(a) for a in node.args[1:]] == ["False", "True"]:
+            return node.func.value.id, self.member(node.args[0].slice, M)
+        return None
+
+
+def _member_loop(ro):
+    loops = [st for st in ro.fn.body if isinstance(st, ast.For) and _is_name(st.target) and _u(st.iter, 200) == "range(self.ensemble_size)"
+             and any(_call(n, ro.F + ".append", 1) for n in ast.walk(st))]
+    if len(loops) != 1:
+        raise TranslationError("the member loop with `%s.append(..)` was not found exactly once" % ro.F)
+    if loops[0].orelse:
+        raise TranslationError("member loop has an else clause")
+    for n in ast.walk(ro.fn):
+        if _call(n, ro.F + ".append") or _call(n, ro.F + ".extend") or _call(n, ro.F + ".insert"):
+            if not any(n is x for x in ast.walk(loops[0])):
+                raise TranslationError("`%s` is also filled outside the member loop" % ro.F)
+    return loops[0]
+
+
+# -- mapped-output slices ----------------------------------------------------------------------
+
+def _slices(ro, loop):
+    """{name: (lo, hi, c0, c1, ACC)} for every `D = ca.vec(ACC[lo:hi, c0:c1])` of the loop"""
+    out = {}
+    for st in ast.walk(loop):
+        if isinstance(st, ast.If):
+            for a in st.body:
+                if isinstance(a, ast.Assign) and len(a.targets) == 1 and _is_name(a.targets[0]) and _call(a.value, "ca.vec", 1) \
+                        and isinstance(a.value.args[0], ast.Subscript):
+                    name, sub = a.targets[0].id, a.value.args[0]
+                    if not (_is_name(sub.value) and isinstance(sub.slice, ast.Tuple) and len(sub.slice.elts) == 2
+                            and all(isinstance(e, ast.Slice) and e.step is None and e.upper is not None for e in sub.slice.elts)):
+                        raise TranslationError("slice of the mapped output not in the table: `%s`" % _u(a))
+                    r, c = sub.slice.elts
+                    other = [b for b in st.orelse if isinstance(b, ast.Assign) and len(b.targets) == 1 and _is_name(b.targets[0], name)]
+                    if len(other) != 1 or _u(other[0].value) != "ca.MX()":
+                        raise TranslationError("`%s` is not `ca.MX()` in the branch without mapped output" % name)
+                    if name in out:
+                        raise TranslationError("`%s` is sliced twice" % name)
+                    c0 = ro.nat(c.lower) if c.lower is not None else "0"
+                    if c0 != "0":
+                        raise TranslationError("column range of `%s` does not start at 0: `%s`" % (name, _u(a, 300)))
+                    out[name] = {"lo": ro.nat(r.lower) if r.lower is not None else "0", "hi": ro.nat(r.upper),
+                                 "c1": ro.nat(c.upper), "acc": sub.value.id, "lean": "slice%dGen" % len(out), "src": name}
+    for name in out:
+        n_asg = sum(1 for n in ast.walk(ro.fn) if isinstance(n, (ast.Assign, ast.AugAssign)) and _stores(n, {name}))
+        if n_asg != 2:
+            raise TranslationError("`%s` is assigned %d times (expected: the slice and `ca.MX()`)" % (name, n_asg))
+    return out
+
+
+# -- objective ------------------------------------------------------------------------------------
+
+class _Obj:
+    def __init__(self, ro, M, slices):
+        self.ro, self.M, self.slices = ro, M, slices
+        self.env = {}          # name -> ("vec"|"rat"|"init", term)
+        self.used = []         # slices summed into the objective
+
+    def rat(self, node):
+        ro = self.ro
+        if isinstance(node, ast.Constant) and isinstance(node.value, (int, float)) and not isinstance(node.value, bool):
+            if float(node.value) != int(node.value) or node.value < 0:
+                raise TranslationError("number literal not in the table: `%s`" % _u(node))
+            return "(%d : Rat)" % int(node.value)
+        if _is_name(node) and node.id in self.env:
+            k, t = self.env[node.id]
+            if k == "rat":
+                return t
+            raise TranslationError("`%s` is used as a number but is %s" % (node.id, {"vec": "the objective vector before the empty-vector guard", "init": "a list of function outputs"}[k]))
+        if isinstance(node, ast.Subscript) and _is_name(node.value) and self.env.get(node.value.id, ("", ""))[0] == "init" \
+                and isinstance(node.slice, ast.Constant) and isinstance(node.slice.value, int) and node.slice.value >= 0:
+            return "(%s).getD %d 0" % (self.env[node.value.id][1], node.slice.value)
+        if _call(node, "ca.sum1", 1) and _is_name(node.args[0]) and node.args[0].id in self.slices:
+            self.used.append(node.args[0].id)
+            return "sumList (%s nd nj R n (cols m))" % self.slices[node.args[0].id]["lean"]
+        if _call(node, "self.ensemble_member_probability", 1):
+            return "prob %s" % ro.member(node.args[0], self.M)
+        if isinstance(node, ast.BinOp) and isinstance(node.op, (ast.Add, ast.Mult)):
+            return "(%s %s %s)" % (self.rat(node.left), "+" if isinstance(node.op, ast.Add) else "*", self.rat(node.right))
+        raise TranslationError("objective term not in the table: `%s`" % _u(node))
+
+    def cond(self, node):
+        """PO.size1() > 0 and friends"""
+        if isinstance(node, ast.Compare) and len(node.ops) == 1:
+            l, op, r = node.left, node.ops[0], node.comparators[0]
+            try:
+                lt, rt = self.ro.nat(l), self.ro.nat(r)
+            except TranslationError:
+                return None
+            if lt == "nj" and rt == "0" and isinstance(op, ast.Gt):
+                return "0 < nj"
+            if lt == "0" and rt == "nj" and isinstance(op, ast.Lt):
+                return "0 < nj"
+            if lt == "nj" and rt == "0" and isinstance(op, ast.NotEq):
+                return "nj ≠ 0"
+            if lt == "nj" and rt == "1" and isinstance(op, ast.GtE):
+                return "1 ≤ nj"
+        return None
+
+    def block(self, stmts):
+        for st in stmts:
+            self.stmt(st)
+
+    def stmt(self, st):
+        ro = self.ro
+        if _is_logger(st):
+            return
+        if isinstance(st, ast.Assign) and len(st.targets) == 1 and _is_name(st.targets[0]):
+            t, v = st.targets[0].id, st.value
+            if _call(v, "self.objective", 1):
+                self.env[t] = ("vec", "objective %s" % ro.member(v.args[0], self.M))
+                return
+            ic = ro.init_call(v, self.M)
+            if ic is not None:
+                if ic[0] != ro.POF:
+                    raise TranslationError("the t0 term of the objective is not computed by the path objective function: `%s`" % _u(v))
+                self.env[t] = ("init", "pobj0 %s" % ic[1])
+                return
+            self.env[t] = ("rat", self.rat(v))
+            return
+        if isinstance(st, ast.AugAssign) and _is_name(st.target) and isinstance(st.op, (ast.Add, ast.Mult)):
+            cur = self.rat(ast.Name(id=st.target.id, ctx=ast.Load()))
+            self.env[st.target.id] = ("rat", "(%s %s %s)" % (cur, "+" if isinstance(st.op, ast.Add) else "*", self.rat(st.value)))
+            return
+        if isinstance(st, ast.If):
+            # the empty-vector guard
+            t = st.test
+            if isinstance(t, ast.Compare) and len(t.ops) == 1 and isinstance(t.ops[0], ast.Eq) and _call(t.left, None, 0) \
+                    and isinstance(t.left.func, ast.Attribute) and t.left.func.attr == "size1" and _is_name(t.left.func.value) \
+                    and self.env.get(t.left.func.value.id, ("", ""))[0] == "vec" and _u(t.comparators[0]) == "0":
+                name = t.left.func.value.id
+                if not (len(st.body) == 1 and not st.orelse and isinstance(st.body[0], ast.Assign) and _u(st.body[0].targets[0]) == name
+                        and _u(st.body[0].value) in ("0", "0.0")):
+                    raise TranslationError("empty-objective guard is not `%s = 0`: `%s`" % (name, _u(st, 200)))
+                self.env[name] = ("rat", "objVal (%s)" % self.env[name][1])
+                return
+            c = self.cond(t)
+            if c is None:
+                raise TranslationError("condition of the objective block not in the table: `%s`" % _u(t))
+            before = dict(self.env)
+            self.block(st.body)
+            then = self.env
+            self.env = dict(before)
+            self.block(st.orelse)
+            els = self.env
+            merged = {}
+            for k in set(then) | set(els):
+                a, b = then.get(k), els.get(k)
+                if a == b:
+                    merged[k] = a
+                elif a is not None and b is not None and a[0] == b[0] == "rat":
+                    merged[k] = ("rat", "(if %s then %s else %s)" % (c, a[1], b[1]))
+                # names defined in one branch only are local to it
+            self.env = merged
+            return
+        raise TranslationError("statement of the objective block not in the table: `%s`" % _u(st))
+
+
+def _translate_objective(ro, loop, slices):
+    M = loop.target.id
+    body = loop.body
+    start = [i for i, st in enumerate(body) if isinstance(st, ast.Assign) and _call(st.value, "self.objective")]
+    end = [i for i, st in enumerate(body) if isinstance(st, ast.Expr) and _call(st.value, ro.F + ".append", 1)]
+    if len(start) != 1 or len(end) != 1 or end[0] < start[0]:
+        raise TranslationError("`.. = self.objective(m)` .. `%s.append(..)` not found once each, in this order, in the member loop" % ro.F)
+    n_app = sum(1 for n in ast.walk(loop) if _call(n, ro.F + ".append"))
+    if n_app != 1:
+        raise TranslationError("`%s.append` occurs %d times" % (ro.F, n_app))
+    ob = _Obj(ro, M, slices)
+    ob.block(body[start[0]:end[0]])
+    elem = ob.rat(body[end[0]].value.args[0])
+    used = sorted(set(ob.used))
+    if len(used) > 1:
+        raise TranslationError("more than one slice of the mapped output is summed into the objective: %s" % used)
+    return elem, used, end[0]
+
+
+# -- kinds of bounds ------------------------------------------------------------------------------
+
+class _Raise(Exception):
+    pass
+
+
+class _Bounds:
+    """symbolic execution of bound code for one combination of kinds.
+    values: ("in", side)            the bound as handed over (side = "lb" | "ub")
+            ("arr", term, sides)    Option NArr term, set of input sides it was computed from
+            ("list", term, sides)   Option (List XVal) term (np.full)
+            ("nat", term)"""
+
+    def __init__(self, ro, kinds, names, nat_env):
+        self.ro, self.kinds, self.names, self.nat_env = ro, kinds, names, nat_env
+        self.env = {}
+
+    def side_of(self, node):
+        if _is_name(node) and node.id in self.env and self.env[node.id][0] == "in":
+            return self.env[node.id][1]
+        return None
+
+    def nat(self, node):
+        if _is_name(node) and node.id in self.env and self.env[node.id][0] == "nat":
+            return self.env[node.id][1]
+        for pat, term in self.nat_env:
+            if _u(node, 200) == pat:
+                return term
+        return self.ro.nat(node, {k: v[1] for k, v in self.env.items() if v[0] == "nat"})
+
+    def inpat(self, side):
+        return "(%s)" % (PAT[self.kinds[side]].replace("%s", side))
+
+    def arr(self, node):
+        """-> ("arr", term, sides)"""
+        side = self.side_of(node)
+        if side is not None:
+            if self.kinds[side] in ("scalar", "vec"):
+                return ("arr", "(UBound%s).arr" % PAT[self.kinds[side]].replace("%s", side), {side})
+            raise TranslationError("a Timeseries bound is used as an array: `%s`" % _u(node))
+        if _is_name(node) and node.id in self.env and self.env[node.id][0] == "arr":
+            return self.env[node.id]
+        if isinstance(node, ast.Call) and isinstance(node.func, ast.Attribute) and node.func.attr == "transpose" and not node.args:
+            inner = node.func.value
+            # self.interpolate(CT, b.times, b.values, f, f).transpose()
+            if _call(inner, "self.interpolate", 5) and not inner.keywords:
+                a = inner.args
+                side = self.side_of(a[1].value) if isinstance(a[1], ast.Attribute) and a[1].attr == "times" else None
+                side2 = self.side_of(a[2].value) if isinstance(a[2], ast.Attribute) and a[2].attr == "values" else None
+                if not (_is_name(a[0], self.ro.CT) and side is not None and side == side2):
+                    raise TranslationError("interpolation of a Timeseries bound not in the table: `%s`" % _u(inner, 200))
+                if self.kinds[side] not in ("ts1", "ts2"):
+                    raise TranslationError("`.times` of a bound that is no Timeseries: `%s`" % _u(inner, 200))
+                fills = {"-np.inf": "XVal.ninf", "np.inf": "XVal.pinf"}
+                f1, f2 = _u(a[3]), _u(a[4])
+                if f1 not in fills or f1 != f2:
+                    raise TranslationError("fill values of the bound interpolation not in the table: `%s`, `%s`" % (f1, f2))
+                return ("arr", "npInterpT times %s %s" % (fills[f1], self.inpat(side)), {side})
+            x = self.arr(inner)
+            return ("arr", "npTranspose (%s)" % x[1], x[2])
+        if _call(node, "np.broadcast_to", 2) and isinstance(node.args[1], ast.Tuple) and len(node.args[1].elts) == 2:
+            x = self.arr(node.args[0])
+            r, c = (self.nat(e) for e in node.args[1].elts)
+            return ("arr", "npBroadcastTo %s %s (%s)" % (r, c, x[1]), x[2])
+        if _call(node, "self.interpolate"):
+            raise TranslationError("interpolated Timeseries bound is not transposed: `%s`" % _u(node, 200))
+        raise TranslationError("bound expression not in the table: `%s`" % _u(node, 200))
+
+    def cond(self, node):
+        """-> True | False | Lean Prop text"""
+        if isinstance(node, ast.UnaryOp) and isinstance(node.op, ast.Not):
+            c = self.cond(node.operand)
+            return (not c) if isinstance(c, bool) else "¬ (%s)" % c
+        if isinstance(node, ast.BoolOp):
+            is_or = isinstance(node.op, ast.Or)
+            dyn = []
+            for v in node.values:
+                c = self.cond(v)
+                if isinstance(c, bool):
+                    if c == is_or:
+                        # short circuit — only sound when no dynamic operand precedes
+                        if dyn:
+                            return "(%s)" % ((" ∨ " if is_or else " ∧ ").join(dyn + ["True" if c else "False"]))
+                        return c
+                    continue
+                dyn.append(c)
+            if not dyn:
+                return not is_or
+            return dyn[0] if len(dyn) == 1 else "(%s)" % (" ∨ " if is_or else " ∧ ").join(dyn)
+        if _call(node, "isinstance", 2):
+            side = self.side_of(node.args[0])
+            if side is None:
+                raise TranslationError("isinstance of something that is not a bound as handed over: `%s`" % _u(node))
+            k = self.kinds[side]
+            cls = _u(node.args[1])
+            if cls == "np.ndarray":
+                return k == "vec"
+            if cls == "Timeseries":
+                return k in ("ts1", "ts2")
+            if cls in ("ca.MX", "MX"):
+                return False
+            raise TranslationError("isinstance class not in the table: `%s`" % cls)
+        if isinstance(node, ast.Call) and isinstance(node.func, ast.Attribute) and node.func.attr == "is_constant":
+            raise TranslationError("`is_constant()` reached for a non-symbolic bound: `%s`" % _u(node))
+        if isinstance(node, ast.Compare) and len(node.ops) == 1:
+            l, op, r = node.left, node.ops[0], node.comparators[0]
+            ops = {ast.Eq: "=", ast.NotEq: "≠", ast.Gt: ">", ast.Lt: "<", ast.GtE: "≥", ast.LtE: "≤"}
+            if type(op) not in ops:
+                raise TranslationError("comparison not in the table: `%s`" % _u(node))
+            return "%s %s %s" % (self.size(l), ops[type(op)], self.size(r))
+        raise TranslationError("condition not in the table: `%s`" % _u(node))
+
+    def size(self, node):
+        # b.shape[0] of an ndarray bound
+        if isinstance(node, ast.Subscript) and isinstance(node.value, ast.Attribute) and node.value.attr == "shape" \
+                and isinstance(node.slice, ast.Constant) and node.slice.value == 0:
+            side = self.side_of(node.value.value)
+            if side is not None:
+                if self.kinds[side] != "vec":
+                    raise TranslationError("`.shape` of a bound that is no ndarray: `%s`" % _u(node))
+                return "%sv.length" % side
+        return self.nat(node)
+
+
+def _tree(bx, stmts, on_stmt):
+    """path enumeration: -> ("leaf", env) | ("raise",) | ("if", cond, then, else)"""
+    if not stmts:
+        return ("leaf", dict(bx.env))
+    st, rest = stmts[0], stmts[1:]
+    if _is_logger(st):
+        return _tree(bx, rest, on_stmt)
+    if isinstance(st, ast.Raise):
+        return ("raise",)
+    if isinstance(st, ast.If):
+        c = bx.cond(st.test)
+        if isinstance(c, bool):
+            return _tree(bx, (st.body if c else st.orelse) + rest, on_stmt)
+        saved = dict(bx.env)
+        a = _tree(bx, st.body + rest, on_stmt)
+        bx.env = dict(saved)
+        b = _tree(bx, st.orelse + rest, on_stmt)
+        bx.env = saved
+        return ("if", c, a, b)
+    on_stmt(bx, st)
+    return _tree(bx, rest, on_stmt)
+
+
+def _render(tree, leaf, ind):
+    if tree[0] == "raise":
+        return "none"
+    if tree[0] == "leaf":
+        return leaf(tree[1])
+    pad = " " * ind
+    return "(if %s then\n%s  %s\n%selse\n%s  %s)" % (tree[1], pad, _render(tree[2], leaf, ind + 2), pad, pad, _render(tree[3], leaf, ind + 2))
+
+
+# -- point constraints ----------------------------------------------------------------------------
+
+def _translate_points(ro, loop):
+    M = loop.target.id
+    body = loop.body
+    cs = [i for i, st in enumerate(body) if isinstance(st, ast.Assign) and len(st.targets) == 1 and _is_name(st.targets[0])
+          and _call(st.value, "self.constraints", 1)]
+    if len(cs) != 1:
+        raise TranslationError("`.. = self.constraints(m)` not found exactly once in the member loop")
+    C = body[cs[0]].targets[0].id
+    member = ro.member(body[cs[0]].value.args[0], M)
+    blk = None
+    for i in range(cs[0] + 1, len(body)):
+        st = body[i]
+        if _is_logger(st):
+            continue
+        if isinstance(st, ast.If) and _u(st.test) == "%s is None" % C and all(isinstance(x, ast.Raise) for x in st.body) and not st.orelse:
+            continue
+        if isinstance(st, ast.If) and _u(st.test) in (C, "len(%s) > 0" % C, "len(%s) != 0" % C) and not st.orelse:
+            blk, pos = st.body, i
+            break
+        raise TranslationError("statement after `self.constraints(m)` not in the table: `%s`" % _u(st))
+    if blk is None:
+        raise TranslationError("`if constraints:` block not found")
+    cols = None          # (GC, LC, UC)
+    inner = None
+    rows = {}
+    for st in blk:
+        if _is_logger(st):
+            continue
+        if isinstance(st, ast.Assign) and len(st.targets) == 1 and isinstance(st.targets[0], ast.Tuple) and cols is None:
+            v = st.value
+            if _call(v, "list", 1):
+                v = v.args[0]
+            if not (_call(v, "zip", 1) and isinstance(v.args[0], ast.Starred) and _is_name(v.args[0].value, C)
+                    and len(st.targets[0].elts) == 3 and all(_is_name(e) for e in st.targets[0].elts)):
+                raise TranslationError("columns of the constraint triples not in the table: `%s`" % _u(st))
+            cols = [e.id for e in st.targets[0].elts]
+            if len(set(cols)) != 3:
+                raise TranslationError("columns of the constraint triples are not three names")
+            continue
+        if cols and isinstance(st, ast.Assign) and len(st.targets) == 1 and _is_name(st.targets[0]) and st.targets[0].id in cols[1:] \
+                and _call(st.value, "list", 1) and _is_name(st.value.args[0], st.targets[0].id):
+            continue
+        if cols and isinstance(st, ast.For) and inner is None and not rows:
+            t, it = st.target, st.iter
+            if not (_call(it, "enumerate", 1) and _call(it.args[0], "zip", 3) and [_u(a) for a in it.args[0].args] == cols
+                    and isinstance(t, ast.Tuple) and len(t.elts) == 2 and _is_name(t.elts[0]) and isinstance(t.elts[1], ast.Tuple)
+                    and len(t.elts[1].elts) == 3 and all(_is_name(e) for e in t.elts[1].elts)) or st.orelse:
+                raise TranslationError("broadcasting loop header not in the table: `%s`" % _u(st, 200))
+            inner = (t.elts[0].id, [e.id for e in t.elts[1].elts], st.body)
+            continue
+        if cols and isinstance(st, ast.Expr) and isinstance(st.value, ast.Call) and isinstance(st.value.func, ast.Attribute) \
+                and st.value.func.attr == "extend" and _is_name(st.value.func.value) and len(st.value.args) == 1 \
+                and _is_name(st.value.args[0]) and st.value.args[0].id in cols and st.value.func.value.id in (ro.G, ro.LBG, ro.UBG):
+            acc = st.value.func.value.id
+            if acc in rows:
+                raise TranslationError("`%s` is extended twice in the point-constraint block" % acc)
+            rows[acc] = cols.index(st.value.args[0].id)
+            continue
+        raise TranslationError("statement of the point-constraint block not in the table: `%s`" % _u(st, 200))
+    if cols is None or len(rows) != 3:
+        raise TranslationError("point-constraint block: columns / the three `extend` calls not found")
+    arms = []
+    if inner is None:
+        inner = ("i", ["g_i", "lb_i", "ub_i"], [])
+    idx, (gi, li, ui), ibody = inner
+
+    def on_stmt(bx, st):
+        if isinstance(st, ast.Assign) and len(st.targets) == 1:
+            t, v = st.targets[0], st.value
+            if _is_name(t) and _u(v) in (gi + ".size1()", gi + ".shape[0]"):
+                bx.env[t.id] = ("nat", "s")
+                return
+            if isinstance(t, ast.Subscript) and _is_name(t.value) and t.value.id in cols[1:] and _is_name(t.slice, idx):
+                side = "lb" if t.value.id == cols[1] else "ub"
+                if _call(v, "np.full", 2) and bx.nat(v.args[0]) == "s":
+                    x = bx.arr(v.args[1])
+                    bx.env["@" + side] = ("list", "npFull s (%s)" % x[1], x[2])
+                    return
+        raise TranslationError("statement of the broadcasting loop not in the table: `%s`" % _u(st, 200))
+
+    for kl in ("scalar", "vec"):
+        for ku in ("scalar", "vec"):
+            bx = _Bounds(ro, {"lb": kl, "ub": ku}, None, [(gi + ".size1()", "s"), (gi + ".shape[0]", "s")])
+            bx.env[li] = ("in", "lb")
+            bx.env[ui] = ("in", "ub")
+            tree = _tree(bx, list(ibody), on_stmt)
+
+            def leaf(env, kl=kl, ku=ku):
+                out = []
+                for side, k in (("lb", kl), ("ub", ku)):
+                    v = env.get("@" + side)
+                    out.append("(%s)" % v[1] if v else "(npEntries (UBound%s).arr)" % PAT[k].replace("%s", side))
+                return "optPair %s %s" % tuple(out)
+            arms.append("  | %s, %s =>\n    %s" % (PAT[kl].replace("%s", "lb"), PAT[ku].replace("%s", "ub"), _render(tree, leaf, 4)))
+    fields = ["(pts.map (·.g)).flatten", "(bs.map (·.1)).flatten", "(bs.map (·.2)).flatten"]
+    return {"arms": "\n".join(arms), "member": member,
+            "rows": ", ".join(fields[rows[a]] for a in (ro.G, ro.LBG, ro.UBG)), "pos": pos}
+
+
+# -- path constraints -----------------------------------------------------------------------------
+
+def _translate_paths(ro, loop, slices):
+    M = loop.target.id
+    body = loop.body
+    # refresh of the member's path constraints, then the block
+    paths_idx, blk, pos = "0", None, None
+    for i, st in enumerate(body):
+        if isinstance(st, ast.If) and not st.orelse and len(st.body) == 1 and isinstance(st.body[0], ast.Assign) \
+                and _u(st.body[0].targets[0]) == ro.PC and _call(st.body[0].value, "self.path_constraints", 1):
+            mt = ro.member(st.body[0].value.args[0], M)
+            if _u(st.test) in ("%s > 0" % M, "%s != 0" % M, "%s >= 1" % M, "0 < %s" % M):
+                paths_idx = "(if 0 < m then %s else 0)" % mt
+            else:
+                raise TranslationError("condition of the path-constraint refresh not in the table: `%s`" % _u(st.test))
+            continue
+        if isinstance(st, ast.Assign) and _u(st.targets[0]) == ro.PC and _call(st.value, "self.path_constraints", 1):
+            paths_idx = ro.member(st.value.args[0], M)
+            continue
+        if isinstance(st, ast.If) and _u(st.test) in ("len(%s) > 0" % ro.PC, ro.PC, "len(%s) != 0" % ro.PC, "len(%s) >= 1" % ro.PC) \
+                and not st.orelse and any(_call(n, "np.empty") for n in ast.walk(st)):
+            if blk is not None:
+                raise TranslationError("two path-constraint blocks")
+            blk, pos = st.body, i
+        elif _stores(st, {ro.PC}):
+            raise TranslationError("unexpected assignment to the path constraints: `%s`" % _u(st, 200))
+    if blk is None:
+        raise TranslationError("`if len(path_constraints) > 0:` block not found in the member loop")
+    gterms, arrays, ext, inner, jname, init_names = [], {}, {}, None, None, {}
+    for st in blk:
+        if _is_logger(st):
+            continue
+        if isinstance(st, ast.Assign) and len(st.targets) == 1:
+            t, v = st.targets[0], st.value
+            ic = ro.init_call(v, M)
+            if ic is not None:
+                if not ((isinstance(t, (ast.List, ast.Tuple)) and len(t.elts) == 1 and _is_name(t.elts[0]))):
+                    raise TranslationError("t0 instance of the path constraints is not unpacked as `[x] = ..`: `%s`" % _u(st, 200))
+                if ic[0] != ro.PCF:
+                    raise TranslationError("the t0 rows are not computed by the path constraints function: `%s`" % _u(v, 200))
+                init_names[t.elts[0].id] = "pcon0 %s" % ic[1]
+                continue
+            if _is_name(t) and _call(v, "np.empty", 1) and isinstance(v.args[0], ast.Tuple) and len(v.args[0].elts) == 2:
+                if [ro.nat(e) for e in v.args[0].elts] != ["R", "n"]:
+                    raise TranslationError("shape of the bound array is not (rows of the expression vector, n): `%s`" % _u(st, 200))
+                arrays[t.id] = None
+                continue
+            if _is_name(t) and isinstance(v, ast.Constant) and v.value == 0 and jname is None and inner is None:
+                jname = t.id
+                continue
+        if isinstance(st, ast.Expr) and isinstance(st.value, ast.Call) and isinstance(st.value.func, ast.Attribute) \
+                and _is_name(st.value.func.value) and len(st.value.args) == 1:
+            acc, meth, arg = st.value.func.value.id, st.value.func.attr, st.value.args[0]
+            if acc == ro.G and meth == "append" and _is_name(arg):
+                if arg.id in init_names:
+                    gterms.append(init_names[arg.id])
+                    continue
+                if arg.id in slices:
+                    gterms.append("%s nd nj R n (cols m)" % slices[arg.id]["lean"])
+                    continue
+            if acc in (ro.LBG, ro.UBG) and meth == "extend" and inner is not None:
+                src = _u(arg, 200)
+                hit = [a for a in arrays if src == "%s.transpose().ravel()" % a]
+                if len(hit) == 1 and acc not in ext:
+                    ext[acc] = hit[0]
+                    continue
+        if isinstance(st, ast.For) and inner is None and _is_name(st.iter, ro.PC) and _is_name(st.target) and not st.orelse \
+                and jname is not None and len(arrays) == 2:
+            inner = (st.target.id, st.body)
+            continue
+        raise TranslationError("statement of the path-constraint block not in the table: `%s`" % _u(st, 200))
+    if inner is None or len(ext) != 2 or len(gterms) == 0:
+        raise TranslationError("path-constraint block: bound loop / the two `extend` calls / the appended rows not found")
+    c, ibody = inner
+    if not ibody or _u(ibody[-1]) != "%s += s" % jname and not (
+            isinstance(ibody[-1], ast.AugAssign) and _is_name(ibody[-1].target, jname) and isinstance(ibody[-1].op, ast.Add)):
+        raise TranslationError("the bound loop does not end with `%s += <size>`" % jname)
+    step = ibody[-1].value
+    ibody = ibody[:-1]
+    if any(_stores(x, {jname}) for x in ibody):
+        raise TranslationError("`%s` is changed inside the bound loop" % jname)
+    results = {}        # array -> {kind: (term, side)}
+
+    def on_stmt(bx, st):
+        if isinstance(st, ast.Assign) and len(st.targets) == 1:
+            t, v = st.targets[0], st.value
+            if _is_name(t):
+                if _u(v) == "%s[0].size1()" % c:
+                    bx.env[t.id] = ("nat", "s")
+                    return
+                if isinstance(v, ast.Subscript) and _is_name(v.value, c) and isinstance(v.slice, ast.Constant) and v.slice.value in (1, 2):
+                    bx.env[t.id] = ("in", "lb" if v.slice.value == 1 else "ub")
+                    return
+                if _is_name(v) and v.id in bx.env:
+                    bx.env[t.id] = bx.env[v.id]
+                    return
+                bx.env[t.id] = bx.arr(v)
+                return
+            if isinstance(t, (ast.List, ast.Tuple)):
+                raise TranslationError("symbolic-bound substitution reached for a non-symbolic bound: `%s`" % _u(st, 200))
+            if isinstance(t, ast.Subscript) and _is_name(t.value) and t.value.id in arrays:
+                sl = t.slice
+                ok = isinstance(sl, ast.Tuple) and len(sl.elts) == 2 and all(isinstance(e, ast.Slice) and e.step is None for e in sl.elts) \
+                    and sl.elts[1].lower is None and sl.elts[1].upper is None and _is_name(sl.elts[0].lower, jname) \
+                    and isinstance(sl.elts[0].upper, ast.BinOp) and isinstance(sl.elts[0].upper.op, ast.Add) \
+                    and _is_name(sl.elts[0].upper.left, jname) and bx.nat(sl.elts[0].upper.right) == "s"
+                if not ok:
+                    raise TranslationError("block assignment is not `A[j : j + s, :] = ..`: `%s`" % _u(st, 200))
+                if ("@" + t.value.id) in bx.env:
+                    raise TranslationError("`%s` is written twice per constraint" % t.value.id)
+                side = bx.side_of(v)
+                if side is not None and bx.kinds[side] in ("ts1", "ts2"):
+                    raise TranslationError("a Timeseries bound is written into the array without interpolation")
+                x = bx.arr(v)
+                bx.env["@" + t.value.id] = ("rows", "npAssignRows s times.length (%s)" % x[1], x[2])
+                return
+        raise TranslationError("statement of the bound loop not in the table: `%s`" % _u(st, 200))
+
+    for kl in KINDS:
+        for ku in KINDS:
+            bx = _Bounds(ro, {"lb": kl, "ub": ku}, None, [(ro.N, "times.length")])
+            bx.env[ro.N] = ("nat", "times.length")
+            tree = _tree(bx, list(ibody), on_stmt)
+            if tree[0] != "leaf":
+                raise TranslationError("the bound loop branches on values (kinds %s / %s): not in the table" % (kl, ku))
+            env = tree[1]
+            if bx_nat_or_none(bx, env, step) != "s":
+                raise TranslationError("the row offset is not advanced by the size of the constraint")
+            for a in arrays:
+                v = env.get("@" + a)
+                if v is None:
+                    raise TranslationError("`%s` is not written for bound kinds %s / %s" % (a, kl, ku))
+                if len(v[2]) != 1:
+                    raise TranslationError("block of `%s` is computed from both bounds" % a)
+                side = next(iter(v[2]))
+                kind = kl if side == "lb" else ku
+                prev = results.setdefault(a, {}).get(kind)
+                if prev is not None and prev != (v[1], side):
+                    raise TranslationError("block of `%s` depends on the kind of the other bound" % a)
+                results[a][kind] = (v[1], side)
+    out = {}
+    for acc, nm in ((ro.LBG, "Lb"), (ro.UBG, "Ub")):
+        a = ext[acc]
+        sides = {results[a][k][1] for k in KINDS}
+        if len(sides) != 1:
+            raise TranslationError("block of `%s` is taken from different sides for different kinds" % a)
+        side = next(iter(sides))
+        arms = "\n".join("  | %s => %s" % (PAT[k].replace("%s", side), results[a][k][0]) for k in KINDS)
+        out[nm] = (arms, side)
+    return {"idx": paths_idx, "g": " ++ ".join(gterms), "Lb": out["Lb"], "Ub": out["Ub"], "pos": pos}
+
+
+def bx_nat_or_none(bx, env, node):
+    saved = bx.env
+    bx.env = env
+    try:
+        return bx.nat(node)
+    except TranslationError:
+        return None
+    finally:
+        bx.env = saved
+
+
+def translate_user_rows():
+    path = os.path.join(REPO, OPT)
+    fn = _find_method(ast.parse(open(path).read()), "CollocatedIntegratedOptimizationProblem", "transcribe")
+    ro = _Roles(fn)
+    loop = _member_loop(ro)
+    slices = _slices(ro, loop)
+    elem, used, opos = _translate_objective(ro, loop, slices)
+    if len(used) != 1:
+        raise TranslationError("the mapped instances of the path objective are not summed into the objective")
+    pts = _translate_points(ro, loop)
+    pth = _translate_paths(ro, loop, slices)
+    gs = [k for k in slices if ("%s nd nj R n (cols m)" % slices[k]["lean"]) in pth["g"]]
+    if len(gs) != 1:
+        raise TranslationError("the path-constraint rows appended to g are not: t0 instance, mapped instances")
+    return {"slices": slices, "elem": elem, "oslice": slices[used[0]], "pts": pts, "pth": pth, "gslice": slices[gs[0]]}
+
+
+USER_TEMPLATE = """import RtcVerif.Props.C06
+import RtcVerif.Proofs.C06Gen
+/-!
+GENERATED on every run of the C06 check by harness/translate_c06.py (`gen_user_rows`) from
+`CollocatedIntegratedOptimizationProblem.transcribe()` in
+/repo/src/rtctools/optimization/collocated_integrated_optimization_problem.py: the slices of the
+mapped output, the objective assembly, the point-constraint block and the path-constraint block.
+Do not edit.  Parameters: `objective m`, `pobj0 m` / `pcon0 m` (path objective / path constraint
+functions at the t0 inputs of member `m`), `cols m` (columns of the mapped output of member `m`),
+`points m`, `paths m` (what `constraints(m)` / `path_constraints(m)` return), `prob m`.
+-/
+set_option linter.unusedVariables false
+namespace RtcVerif.Gen
+open RtcVerif RtcVerif.C06 RtcVerif.Interp
+
+/-! ## slices of the mapped output -/
+%(slice_defs)s
+/-! ## objective -/
+
+/-- the entry appended to `f` for member `m` -/
+def objectiveElemGen (prob : Nat → Rat) (objective pobj0 : Nat → List Rat)
+    (cols : Nat → List (List Rat)) (nd nj R n : Nat) (m : Nat) : Rat :=
+  %(elem)s
+
+/-- `nlp["f"]`: member loop, `f.append`, `ca.sum1(ca.vertcat(*f))` -/
+def objectiveGen (E : Nat) (prob : Nat → Rat) (objective pobj0 : Nat → List Rat)
+    (cols : Nat → List (List Rat)) (nd nj R n : Nat) : Rat :=
+  sumList ((List.range E).map (fun m => objectiveElemGen prob objective pobj0 cols nd nj R n m))
+
+theorem objectiveElemGen_eq_model (prob : Nat → Rat) (objective pobj0 : Nat → List Rat)
+    (cols : Nat → List (List Rat)) (nd nj R n m : Nat) (hc : (cols m).length ≤ n - 1) :
+    objectiveElemGen prob objective pobj0 cols nd nj R n m
+      = prob m * fMember (objVal (objective m)) nd nj (pobj0 m) (cols m) := by
+  have hs := vecRange_eq_vecSlice %(o_lo)s %(o_hi)s %(o_c1)s nd nj (cols m) (by omega) (by omega) (by omega)
+  unfold objectiveElemGen fMember %(o_lean)s
+  rw [hs]
+  all_goals (split_ifs <;> first | ring1 | omega)
+
+theorem objectiveGen_eq_model (E : Nat) (prob : Nat → Rat) (objective pobj0 : Nat → List Rat)
+    (cols : Nat → List (List Rat)) (nd nj R n : Nat) (hc : ∀ m, (cols m).length ≤ n - 1) :
+    objectiveGen E prob objective pobj0 cols nd nj R n
+      = objectiveCode ((List.range E).map prob)
+          ((List.range E).map (fun m => fMember (objVal (objective m)) nd nj (pobj0 m) (cols m))) := by
+  unfold objectiveGen objectiveCode
+  rw [List.zipWith_map, List.zipWith_self]
+  congr 1
+  apply List.map_congr_left
+  intro m _
+  exact objectiveElemGen_eq_model prob objective pobj0 cols nd nj R n m (hc m)
+
+/-- the objective assembled by the source is the documented one: every member weighted by its
+    probability, the path objective at every collocation time including t0 -/
+theorem objectiveGen_documented {Env : Type} (E n nd R : Nat) (hn : 1 ≤ n) (prob J : Nat → Rat)
+    (Jpath : Env → Rat) (G : Env → List Rat) (env : Nat → Nat → Env)
+    (dae delay : Nat → Nat → List Rat) (hdae : ∀ m i, (dae m i).length = nd) :
+    objectiveGen E prob (fun m => [J m]) (fun m => [Jpath (env m 0)])
+      (fun m => (List.range (n - 1)).map (fun i =>
+        stepColumn (dae m i) [Jpath (env m (i + 1))] (G (env m (i + 1))) (delay m i))) nd 1 R n
+      = objectiveSpec E n prob J Jpath env := by
+  rw [objectiveGen_eq_model _ _ _ _ _ _ _ _ _ (fun m => by simp)]
+  exact C06_objective E n nd hn prob J Jpath G env dae delay hdae
+
+/-! ## point constraints -/
+
+/-- the broadcasting loop for one constraint of `s` rows, per kind of its two bounds -/
+def pointBoundsGen (s : Nat) (lb ub : UBound) : Option (List XVal × List XVal) :=
+  match lb, ub with
+%(pt_arms)s
+  | _, _ => none
+
+theorem pointBoundsGen_eq_model (s : Nat) (lb ub : UBound) :
+    pointBoundsGen s lb ub = optPair (pointBound s lb) (pointBound s ub) := by
+  cases lb <;> cases ub <;>
+    simp only [pointBoundsGen, pointBound, npFull, npEntries, UBound.arr] <;>
+    (repeat' split) <;> simp_all [optPair] <;> omega
+
+/-- `g.extend(..); lbg.extend(..); ubg.extend(..)` -/
+def pointRowsGen (pts : List PointCon) : Option Rows :=
+  (mapMOpt (fun p => pointBoundsGen p.g.length p.lb p.ub) pts).map
+    (fun bs => ⟨%(pt_rows)s⟩)
+
+theorem pointRowsGen_eq_model (pts : List PointCon) : pointRowsGen pts = pointRows pts :=
+  pointRows_of_pairs _ (fun p => pointBoundsGen_eq_model p.g.length p.lb p.ub) pts
+
+/-- the point-constraint rows of member `m` -/
+def memberPointRowsGen (points : Nat → List PointCon) (m : Nat) : Option Rows :=
+  pointRowsGen (points %(pt_member)s)
+
+/-- every point constraint of member `m` once, with its own bounds -/
+theorem pointRowsGen_documented (points : Nat → List PointCon) (m : Nat)
+    (hok : ∀ p ∈ points m, 1 ≤ p.g.length ∧ p.lb.pointOk p.g.length ∧ p.ub.pointOk p.g.length)
+    (rows : Rows) (h : memberPointRowsGen points m = some rows) :
+    rows.g = (points m).flatMap (·.g) ∧
+    rows.lb = (points m).flatMap (fun p => (List.range p.g.length).map (pointBoundAt p.lb)) ∧
+    rows.ub = (points m).flatMap (fun p => (List.range p.g.length).map (pointBoundAt p.ub)) := by
+  unfold memberPointRowsGen at h
+  rw [pointRowsGen_eq_model] at h
+  exact C06_point_constraints_once (points m) hok rows h
+
+/-! ## path constraints -/
+
+/-- the block written into the array that is extended into `lbg`, per kind of bound -/
+def pathLbBlockGen (s : Nat) (times : List Rat) : UBound → Option (List (List XVal))
+%(lb_arms)s
+
+/-- the block written into the array that is extended into `ubg`, per kind of bound -/
+def pathUbBlockGen (s : Nat) (times : List Rat) : UBound → Option (List (List XVal))
+%(ub_arms)s
+
+theorem pathLbBlockGen_eq_model (s : Nat) (times : List Rat) (b : UBound) :
+    pathLbBlockGen s times b = pathBlock s times .ninf b := by
+  cases b with
+  | scalar v => exact gen_block_scalar s times _ v
+  | vec vs => exact gen_block_vec s times _ vs
+  | ts1 ts vals => exact gen_block_ts1 s times _ ts vals
+  | ts2 ts cs => exact gen_block_ts2 s times _ ts cs
+
+theorem pathUbBlockGen_eq_model (s : Nat) (times : List Rat) (b : UBound) :
+    pathUbBlockGen s times b = pathBlock s times .pinf b := by
+  cases b with
+  | scalar v => exact gen_block_scalar s times _ v
+  | vec vs => exact gen_block_vec s times _ vs
+  | ts1 ts vals => exact gen_block_ts1 s times _ ts vals
+  | ts2 ts cs => exact gen_block_ts2 s times _ ts cs
+
+/-- the path-constraint rows of member `m`: t0 instance and mapped instances, bound arrays
+    stacked constraint by constraint and flattened time-major -/
+def pathRowsGen (nd nj R n : Nat) (times : List Rat) (pcon0 : Nat → List Rat)
+    (paths : Nat → List PathCon) (cols : Nat → List (List Rat)) (m : Nat) : Option Rows :=
+  if (paths %(p_idx)s).isEmpty then some ⟨[], [], []⟩ else
+  match stackRavel n (mapMOpt (fun c => pathLbBlockGen c.size times c.%(lb_side)s) (paths %(p_idx)s)),
+        stackRavel n (mapMOpt (fun c => pathUbBlockGen c.size times c.%(ub_side)s) (paths %(p_idx)s)) with
+  | some l, some u => some ⟨%(p_g)s, l, u⟩
+  | _, _ => none
+
+theorem pathRowsGen_eq_model (nd nj R n : Nat) (times : List Rat) (pcon0 : Nat → List Rat)
+    (paths : Nat → List PathCon) (cols : Nat → List (List Rat)) (m : Nat)
+    (hn : n = times.length) (hc : (cols m).length ≤ n - 1)
+    (J : Rat) (init : List Rat) (points : List PointCon) :
+    pathRowsGen nd nj R n times pcon0 paths cols m
+      = pathRows nd nj R times ⟨J, init, pcon0 m, cols m, points, paths m⟩ := by
+  have hm : %(p_idx)s = m := by first | rfl | (split <;> omega)
+  unfold pathRowsGen
+  try simp only [hm]
+  exact pathRows_of_blocks nd nj R n times ⟨J, init, pcon0 m, cols m, points, paths m⟩ _ _
+    (fun c => pathLbBlockGen_eq_model c.size times c.lb)
+    (fun c => pathUbBlockGen_eq_model c.size times c.ub) (%(p_g)s)
+    (by
+      have hs := vecRange_eq_vecSlice %(g_lo)s %(g_hi)s %(g_c1)s (nd + nj) R (cols m) (by omega) (by omega) (by omega)
+      unfold %(g_lean)s
+      rw [hs])
+    hn
+
+/-- every path constraint of member `m` at every collocation time including t0, once, in
+    time-major order, with the bounds `path_constraints(m)` returned for this member -/
+theorem pathRowsGen_documented {Env : Type} (nd nj R : Nat) (times : List Rat) (hn : 1 ≤ times.length)
+    (env : Nat → Nat → Env) (G : Env → List Rat) (hG : ∀ e, (G e).length = R)
+    (dae jp dl : Nat → Nat → List Rat) (hdae : ∀ m i, (dae m i).length = nd)
+    (hjp : ∀ m i, (jp m i).length = nj) (paths : Nat → List PathCon) (m : Nat)
+    (hne : paths m ≠ []) (hwf : ∀ c ∈ paths m, c.lb.WF ∧ c.ub.WF) (rows : Rows)
+    (h : pathRowsGen nd nj R times.length times (fun m => G (env m 0)) paths
+          (fun m => (List.range (times.length - 1)).map (fun i =>
+            stepColumn (dae m i) (jp m i) (G (env m (i + 1))) (dl m i))) m = some rows) :
+    rows.g = (List.range times.length).flatMap (fun i => G (env m i)) ∧
+    rows.lb = (List.range times.length).flatMap (pathBoundCol times true (paths m)) ∧
+    rows.ub = (List.range times.length).flatMap (pathBoundCol times false (paths m)) := by
+  rw [pathRowsGen_eq_model nd nj R times.length times _ paths _ m rfl (by simp) 0 [] []] at h
+  exact C06_path_constraints_everywhere nd nj R times hn (env m) G hG (dae m) (jp m) (dl m) (hdae m)
+    (hjp m) 0 [] [] (paths m) hne hwf rows h
+
+/-! ## the user rows of a member, in the order of the source -/
+
+def memberRowsGen (nd nj R n : Nat) (times : List Rat) (pcon0 : Nat → List Rat)
+    (points : Nat → List PointCon) (paths : Nat → List PathCon) (cols : Nat → List (List Rat))
+    (m : Nat) : Option Rows :=
+  match memberPointRowsGen points m, pathRowsGen nd nj R n times pcon0 paths cols m with
+  | some a, some b => some (%(order)s)
+  | _, _ => none
+
+theorem memberRowsGen_eq_model (nd nj R n : Nat) (times : List Rat) (pcon0 : Nat → List Rat)
+    (points : Nat → List PointCon) (paths : Nat → List PathCon) (cols : Nat → List (List Rat))
+    (m : Nat) (hn : n = times.length) (hc : (cols m).length ≤ n - 1) (J : Rat) (init : List Rat) :
+    memberRowsGen nd nj R n times pcon0 points paths cols m
+      = memberRows nd nj R times ⟨J, init, pcon0 m, cols m, points m, paths m⟩ := by
+  unfold memberRowsGen memberRows memberPointRowsGen
+  rw [pointRowsGen_eq_model, pathRowsGen_eq_model nd nj R n times pcon0 paths cols m hn hc J init (points m)]
+  all_goals rfl
+
+/-! ## shape mismatch is rejected by the code read from the source -/
+
+/-- a vector point constraint with an array bound of a length that is neither 1 nor its size makes
+    the assembled block raise, on either side, wherever the constraint stands -/
+theorem pointRowsGen_shape_mismatch_rejected (pts : List PointCon) (p : PointCon) (hp : p ∈ pts)
+    (vs : List XVal) (hs : 1 < p.g.length) (h1 : vs.length ≠ 1) (h2 : vs.length ≠ p.g.length)
+    (hb : p.lb = .vec vs ∨ p.ub = .vec vs) : pointRowsGen pts = none := by
+  rw [pointRowsGen_eq_model]
+  exact C06_point_shape_mismatch_rejected pts p hp vs hs h1 h2 hb
+
+/-- a path-constraint array bound that cannot be broadcast over the rows is rejected on both sides -/
+theorem pathBlockGen_shape_mismatch_rejected (s : Nat) (times : List Rat) (vs : List XVal)
+    (h1 : vs.length ≠ 1) (h2 : vs.length ≠ s) :
+    pathLbBlockGen s times (.vec vs) = none ∧ pathUbBlockGen s times (.vec vs) = none := by
+  rw [pathLbBlockGen_eq_model, pathUbBlockGen_eq_model]
+  exact ⟨C06_path_shape_mismatch_rejected s times _ vs h1 h2,
+         C06_path_shape_mismatch_rejected s times _ vs h1 h2⟩
+
+/-! ## non-vacuity: concrete instances of the functions read from the source -/
+
+-- two members, three time stamps, one DAE row per step: f = 1/2 (1 + 10+20+30) + 1/4 (2 + 1+2+3)
+example : objectiveGen 2 (fun m => if m = 0 then 1/2 else 1/4) (fun m => if m = 0 then [1] else [2])
+    (fun m => if m = 0 then [10] else [1])
+    (fun m => if m = 0 then [stepColumn [0] [20] [101, 201] [], stepColumn [0] [30] [102, 202] []]
+              else [stepColumn [0] [2] [3, 4] [], stepColumn [0] [3] [5, 6] []]) 1 1 2 3 = 65/2 := by
+  decide +kernel
+
+-- member 1 gets its own bounds (member 0 has none): Timeseries upper bound on a sub-range, +inf outside
+example : pathRowsGen 1 1 2 3 [0, 1, 2] (fun _ => [100, 200])
+    (fun m => if m = 0 then [] else
+      [⟨1, .scalar .ninf, .ts1 [0, 1] [1, 3]⟩, ⟨1, .vec [.fin (-1)], .scalar (.fin 5)⟩])
+    (fun _ => [stepColumn [0] [20] [101, 201] [], stepColumn [0] [30] [102, 202] []]) 1
+    = some ⟨[100, 200, 101, 201, 102, 202],
+            [.ninf, .fin (-1), .ninf, .fin (-1), .ninf, .fin (-1)],
+            [.fin 1, .fin 5, .fin 3, .fin 5, .pinf, .fin 5]⟩ := by
+  decide +kernel
+
+example : memberPointRowsGen (fun m => if m = 2 then
+      [⟨[7, 8], .scalar (.fin 0), .vec [.fin 1, .fin 2]⟩, ⟨[9], .vec [.fin 3], .scalar .pinf⟩] else []) 2
+    = some ⟨[7, 8, 9], [.fin 0, .fin 0, .fin 3], [.fin 1, .fin 2, .pinf]⟩ := by
+  decide +kernel
+
+-- shape mismatch on either side is the exception
+example : pointRowsGen [⟨[7, 8], .scalar (.fin 0), .vec [.fin 1, .fin 2, .fin 3]⟩] = none := by
+  decide +kernel
+
+example : pathLbBlockGen 2 [0, 1, 2] (.vec [.fin 1, .fin 2, .fin 3]) = none := by decide +kernel
+
+end RtcVerif.Gen
+"""
+
+USER_THEOREMS = ["objectiveElemGen_eq_model", "objectiveGen_eq_model", "objectiveGen_documented",
+                 "pointBoundsGen_eq_model", "pointRowsGen_eq_model", "pointRowsGen_documented",
+                 "pathLbBlockGen_eq_model", "pathUbBlockGen_eq_model", "pathRowsGen_eq_model",
+                 "pathRowsGen_documented", "memberRowsGen_eq_model",
+                 "pointRowsGen_shape_mismatch_rejected", "pathBlockGen_shape_mismatch_rejected"]
+
+
+def user_rows_text():
+    """the text of lean/RtcVerif/Gen/UserRows.lean for the current source"""
+    t = translate_user_rows()
+    sd = ""
+    for k, sl in t["slices"].items():
+        sd += "\n/-- `%s = ca.vec(%s[%s : %s, 0 : %s])` -/\ndef %s (nd nj R n : Nat) (cols : List (List Rat)) : List Rat :=\n" \
+              "  vecRange %s %s 0 %s cols\n" % (k, sl["acc"], sl["lo"], sl["hi"], sl["c1"], sl["lean"], _par(sl["lo"]), _par(sl["hi"]), _par(sl["c1"]))
+    o, g, pts, pth = t["oslice"], t["gslice"], t["pts"], t["pth"]
+    return USER_TEMPLATE % {
+        "slice_defs": sd, "elem": t["elem"],
+        "o_lo": _par(o["lo"]), "o_hi": _par(o["hi"]), "o_c1": _par(o["c1"]), "o_lean": o["lean"],
+        "pt_arms": pts["arms"], "pt_rows": pts["rows"], "pt_member": pts["member"],
+        "lb_arms": pth["Lb"][0], "ub_arms": pth["Ub"][0], "lb_side": pth["Lb"][1], "ub_side": pth["Ub"][1],
+        "p_idx": pth["idx"], "p_g": pth["g"],
+        "g_lo": _par(g["lo"]), "g_hi": _par(g["hi"]), "g_c1": _par(g["c1"]), "g_lean": g["lean"],
+        "order": "a.append b" if pts["pos"] < pth["pos"] else "b.append a",
+    }
+
+
+def gen_user_rows(c):
+    """(re)generate lean/RtcVerif/Gen/UserRows.lean; returns the extra obligations for c.prove"""
+    gdir = os.path.join(LEAN_DIR, "RtcVerif", "Gen")
+    os.makedirs(gdir, exist_ok=True)
+    path = os.path.join(gdir, "UserRows.lean")
+    try:
+        text = user_rows_text()
+    except TranslationError as e:
+        c.broken.append((USER_WHAT, str(e)))
+        return []
+    except (OSError, SyntaxError) as e:
+        c.broken.append((USER_WHAT, "cannot read the source: %s" % e))
+        return []
+    old = open(path).read() if os.path.exists(path) else None
+    if old != text:
+        tmp = path + ".tmp%d" % os.getpid()
+        with open(tmp, "w") as f:
+            f.write(text)
+        os.replace(tmp, path)
+    return [("RtcVerif.Gen.UserRows", "RtcVerif.Gen", USER_THEOREMS)]
+
+
+def _par(t):
+    return t if t.startswith("(") or " " not in t else "(%s)" % t
